@@ -16,6 +16,8 @@ import (
 	"runtime/debug"
 	"sort"
 	"strings"
+	"sync"
+	"sync/atomic"
 	"testing"
 	"time"
 
@@ -277,3 +279,126 @@ func TestVerif_C19_livestats(t *testing.T) {
 		c19LCheck(rt, rec, c)
 	})
 }
+
+// TestVerif_C19_liverace (built with -race): the liveness module's PrintAndReset / PrintStats in a
+// tight loop (the statistics tick) while workers query the tester (scripted probe: verdict a pure
+// function of the address) and the cache is aged and cleared. Oracle: no recovered panic; a race
+// report or runtime fatal error fails the binary (vcheck reports the crash).
+func TestVerif_C19_liverace(t *testing.T) {
+	rec := vh.NewRec("C19", "liverace", "race-detector build: every liveness tester kind (no cache, live-only, non-live-only, both; map and LRU with capacity 1/3/100000) x a statistics-tick goroutine looping PrintAndReset/PrintStats while 4 workers issue queries over 1-40 addresses (verdict = function of the address) and one goroutine clears expired entries (1ns lifetimes expire by themselves); work bounded by operation counts; oracle: no panic, no race report; non-trivial = settings differ from the shipped file's; distinct by settings")
+	defer rec.Flush()
+	rec.Require("cache:both", "cache:live-only", "cache:nonlive-only", "cache:none", "ticks-ran-during-activity")
+	var buf bytes.Buffer
+	_ = buf
+	idx := 0
+	for _, dl := range []string{"", "2.0h", "1ns"} {
+		for _, cl := range []int{0, 1, 3, 100000} {
+			for _, dn := range []string{"", "5m", "1ns"} {
+				for _, cn := range []int{0, 1, 3} {
+					idx++
+					if !vh.Mine(idx) {
+						continue
+					}
+					conf := c19LConf{DurLive: dl, CapLive: cl, DurNon: dn, CapNon: cn}
+					c := c19LCase{Conf: conf}
+					tst, err := New(&Config{CacheDuration: dl, CacheCapacity: cl, CacheDurationNonLive: dn, CacheCapacityNonLive: cn})
+					if err != nil {
+						t.Fatalf("harness problem: %v", err)
+					}
+					probe := func(a string) (bool, error) {
+						if len(a)%2 == 0 {
+							return true, ErrLiveHost
+						}
+						return false, NotLive
+					}
+					cls := []string{}
+					switch x := tst.(type) {
+					case *CachedLivenessTester:
+						x.phantomIsLive = probe
+						switch {
+						case x.ipCacheLive != nil && x.ipCacheNonLive != nil:
+							cls = append(cls, "cache:both")
+						case x.ipCacheLive != nil:
+							cls = append(cls, "cache:live-only")
+						default:
+							cls = append(cls, "cache:nonlive-only")
+						}
+					case *UncachedLivenessTester:
+						x.phantomIsLive = probe
+						cls = append(cls, "cache:none")
+					}
+					logger := log.New(discardWriter{}, "[STATS] ", golog.Ldate|golog.Lmicroseconds)
+					logger.SetLevel(log.TraceLevel)
+					var stop int32
+					var ticks int64
+					var mu sync.Mutex
+					var fails []string
+					guard := func(who string, f func()) {
+						if v, st := c19LRecover(f); v != "" {
+							mu.Lock()
+							fails = append(fails, fmt.Sprintf("%s: %s [%s]", who, v, c19LFrame(st)))
+							mu.Unlock()
+						}
+					}
+					var workers, printer sync.WaitGroup
+					printer.Add(1)
+					go func() {
+						defer printer.Done()
+						guard("stats-tick", func() {
+							for atomic.LoadInt32(&stop) == 0 {
+								tst.PrintAndReset(logger)
+								tst.PrintStats(logger)
+								atomic.AddInt64(&ticks, 1)
+							}
+						})
+					}()
+					n := vh.Pick(400, 4000)
+					for g := 0; g < 4; g++ {
+						g := g
+						workers.Add(1)
+						go func() {
+							defer workers.Done()
+							guard("query", func() {
+								for i := 0; i < n; i++ {
+									_, _ = tst.PhantomIsLive(fmt.Sprintf("192.0.2.%d", (i*7+g)%40+1), 443)
+								}
+							})
+						}()
+					}
+					workers.Add(1)
+					go func() {
+						defer workers.Done()
+						guard("clear", func() {
+							if clt, ok := tst.(*CachedLivenessTester); ok {
+								// no ageing here: cache elements are immutable once stored and Lookup reads
+								// them outside the lock, so shifting times concurrently would be a race
+								// of the harness's making; the "1ns" lifetimes expire by themselves
+								for i := 0; i < n/4+1; i++ {
+									clt.ClearExpiredCache()
+								}
+							}
+						})
+					}()
+					workers.Wait()
+					atomic.StoreInt32(&stop, 1)
+					printer.Wait()
+					if atomic.LoadInt64(&ticks) > 1 {
+						cls = append(cls, "ticks-ran-during-activity")
+					}
+					sort.Strings(cls)
+					nontriv := !(dl == "2.0h" && dn == "5m" && cl == 0 && cn == 0)
+					rec.Case(nontriv, vh.Digest(c), c, cls...)
+					sort.Strings(fails)
+					for _, f := range fails {
+						rec.Violation(t, "panic:concurrent:liveness", c, "liveness tester built from %+v, statistics printed concurrently with queries: %s", conf, f)
+					}
+				}
+			}
+		}
+	}
+	rec.SetExhaustive(true)
+}
+
+type discardWriter struct{}
+
+func (discardWriter) Write(p []byte) (int, error) { return len(p), nil }
